@@ -54,7 +54,7 @@ register("C18",
          "Trusted: Coq kernel; translator/gen_refresh.py (fail-closed definitional interpreter, validated against CPython each run) and the statement semantics Model/RefreshProg.exec; Model/Refresh.v is hand-written (modelled-not-verified, one dimension + sum + count standing for any decomposable rollup) and tied by differential testing; DuckDB and typer CliRunner as drivers; the API source statement (bucket-level watermark predicate) is the harness's choice. No axioms.",
          "Coq induction over operation histories (pointwise bag algebra) + refinement of the translator-regenerated statement programs; correspondence on executed histories incl. the CLI", "DESIGN.md section 6/C18")
 
-register("C01",
+register("C01 Regenerated on every run (Gen/Small_gen.v, the method's AST executed on scripted names): the aggregate text of _build_measure_aggregation_sql for every aggregation literal; C01_aggregate_table / C01_aggregate_shape tie it to the aggregate the plan applies to the measure's raw column.",
          "Machine-checked Coq theorem C01_rows: for every single-model definition, query and table of ANY size the relational plan the generator emits (CTE of dimension expressions and raw measure columns with CASE-WHEN metric filters, "
          "COUNT->1, COUNT DISTINCT->key, outer aggregation with GROUP BY positions, ungrouped branch, ORDER BY/OFFSET/LIMIT) returns exactly the rows of the reference semantics (one row per distinct dimension tuple among the filtered rows; "
          "each metric its aggregation over exactly the group's rows that pass its own filters, SQL NULL semantics; uninterpreted aggregates receive exactly that bag). "
@@ -82,7 +82,7 @@ register("C03",
          "Trusted: translator/pyinterp.py + gen_multifact.py (fail-closed definitional interpreter, validated against CPython each run); Coq kernel; Model/MultiFact.v hand-written, tied by differential testing; DuckDB as oracle. The theorems cover the outer join; that each sub-query equals the single-metric query is by construction of the code (same generate() call) and checked by the oracle. No axioms.",
          "Coq proof about the outer-join combinator + model/implementation correspondence; oracle from the implementation's own single-metric queries; translator-regenerated verdict table of the multi-fact decision", "DESIGN.md section 6/C03")
 
-register("C04",
+register("C04 Also regenerated: the text _join_conjuncts builds from scripted condition lists (OR conditions parenthesised, joined with AND): C04_conjuncts_table / C04_conjuncts_shape.",
          "Machine-checked Coq theorems: one conjunction = several filters = any order = applied one after the other under SQL three-valued logic (C04_conj/order/sequential, any filter list, any table); "
          "pushing a filter into the joined model's sub-query and INNER-joining it equals joining all rows and keeping the wide rows whose slot satisfies the filter (C04_pushdown, any wide-row bag); after an INNER step every wide row is connected to a row of the filtered model and later steps keep that slot (semi-join reading); "
          "a metric's own filters touch only its column. Tied to the code through the C02 plan/join model executed on filtered queries, and by metamorphic runs on the implementation: list / one conjunction / reversed / segment with {model} / segment with bare columns must agree, "
@@ -104,7 +104,7 @@ register("C15",
          "CPython hash randomisation as the only source of set-order nondeterminism. No axioms.",
          "Coq proof of permutation-invariance of sorted iteration + regenerated site and persistent-write obligations; multi-process byte comparison", "DESIGN.md section 6/C15")
 
-register("C07",
+register("C07 Also regenerated: how _parse_dimension_refs splits references (C07_dimref_table); C07_dimref_roundtrip: for ANY reference text p and granularity word g, p__g is read back as (p, g).",
          "Machine-checked Coq theorems for EVERY timestamp (Z microseconds, unbounded): truncation to hour/day/ISO week/month/quarter/year is the floor onto the bucket starts (C07_floor; era-periodicity lemmas + one exhaustive 400-year sweep lifted to all Z); "
          "additive roll-up of SUM and COUNT from any nested finer granularity for every table (C07_additive_*; from floor composition + a regrouping lemma); the default-time-dimension step keeps requested dimensions and adds only a model's default time dimension, only with a requested metric and no requested time dimension; "
          "a granularity on a non-time field is an error. Grouping by several granularities is an instance of C01_rows. Ties: extracted calendar vs DuckDB DATE_TRUNC on calendar edges (thorough: every hour of a 28-year cycle); time-granularity queries vs the Single model; "
@@ -133,7 +133,7 @@ register("C08",
          "Trusted: translator/pyinterp.py + gen_satisfy.py (fail-closed, validated against CPython each run); Coq kernel; gen_derivable / gen_grancompat translators (fail-closed, validated each run); Model/Preagg.v hand-written (one coded dimension and non-NULL integer values stand for the dimension tuple / measure values), tied by differential testing; DuckDB as oracle. No axioms.",
          "Coq proof (regrouping of decomposable aggregates over a partition, semilattice fold for min/max, calendar nesting) over a hand-written rollup model + translator-regenerated derivability; routed-vs-unrouted execution and decision audit; translator-regenerated matcher verdict table", "DESIGN.md section 6/C08")
 
-register("C06",
+register("C06 Regenerated on every run: what _wrap_with_fill_nulls returns for scripted fill values (numbers, booleans, strings with quotes): C06_fill_table, and C06_fill_quotes_doubled (any text value is quoted with its quotes doubled).",
          "Machine-checked Coq theorems for formulas of ANY nesting depth and any component names: the value of a formula whose references were replaced by the components' formulas is the formula applied to the components' values (C06_compositional, SQL NULL semantics); "
          "the code's expansion -- one dependency after the other, whole-word replacement by a parenthesised component text -- equals the simultaneous substitution when no replacement mentions a later name (C06_subst), and on a rendered formula it yields exactly "
          "the rendering of the substituted tree (C06_text_expansion); names that are substrings of one another never interfere (C06_names); ratio = n / NULLIF(d, 0) is NULL on a zero / NULL denominator, fill_nulls_with replaces a NULL result; tokenisation is lossless. "
@@ -143,7 +143,7 @@ register("C06",
          "Trusted: Coq kernel; Model/Formula.v hand-written (tied by the text comparison and the value oracle); sqlglot's column extraction gives the dependency set, DuckDB parses/evaluates the expanded text; rows whose reference value involves x/0 (IEEE inf/nan in DuckDB) are outside the fragment. No axioms.",
          "Coq proof (token-level substitution lemma, tree induction) + text-level model/implementation correspondence; formula-over-own-components oracle and metamorphic runs", "DESIGN.md section 6/C06")
 
-register("C20",
+register("C20 Regenerated on every run: how references are split into dimension and granularity (C20_dimref_table, C20_dimref_roundtrip; the witness of C20-K6 as C20_dunder_name_refuted).",
          "Machine-checked Coq theorems for graphs and reference lists of ANY size: validate_query reports every unknown model / metric / graph-level metric / dimension, every unknown granularity, every granularity on a non-time dimension and every unqualified dimension (C20_reject_*); "
          "every metric reference and EVERY dimension reference -- with or without a granularity suffix -- puts its model into the join check, and two registered query models that no chain of relationships connects are reported (C20_reject_disconnected, over the C10 graph model and its path-search proofs); "
          "an accepted query resolves all references and only touches joinable models; removing '_cte' recovers the model name from its CTE alias for every name that does not contain '_cte' (C20_cte_inverse), and not otherwise (refuted by witness). "
